@@ -182,7 +182,7 @@ class Sched(object):
                 finally:
                     self.in_state_fn = False
                 self.state_keys += 1
-                key = hash(key)
+                key = hash((key, getattr(self.visited, 'salt', 0)))
                 left = self.budget - self.preemptions
                 if key not in self.seen_here:   # not a cycle of this run
                     self.seen_here.add(key)
